@@ -167,6 +167,47 @@ def part_model_differential(ctx, contracts):
     return len(exprs), bad
 
 
+def part_mutability(ctx):
+    """Mutability.v vs StateMutability.from_abi / is_payable / the call opcode and value= rule of a compiled caller."""
+    from vyper.compiler import compile_code
+    from vyper.exceptions import VyperException
+    from vyper.semantics.analysis.base import StateMutability
+    strs = ["pure", "view", "nonpayable", "payable", "Pure", "", "constant"]
+    exprs = [f'match mut_from_abi "{s}" with Some m => show_mut m ++ (if use_staticcall m then "~S" else "~C") ++ '
+             f'(if value_kwarg_allowed m then "~V" else "~N") | None => "none" end' for s in strs]
+    outs = coqrun.eval_cases("From Verif Require Import C19.AbiOut C19.Mutability.\nOpen Scope string_scope.\n", exprs, "c19mut")
+    n = 0
+    for s, o in zip(strs, outs):
+        o = o.strip().strip('"')
+        try:
+            m = StateMutability.from_abi({"stateMutability": s})
+        except Exception:  # ValueError, surfaced by the StringEnum as a CompilerPanic
+            real = "none"
+        else:
+            def comp(kw, extra=""):
+                src = (f"interface I:\n    def g() -> uint256: {m.value}\n\n@external\ndef c(t: address) -> uint256:\n"
+                       f"    return {kw} I(t).g({extra})\n")
+                try:
+                    with warnings.catch_warnings():
+                        warnings.simplefilter("ignore")
+                        return compile_code(src, output_formats=["opcodes_runtime"])["opcodes_runtime"].split()
+                except VyperException:
+                    return None
+            st, ex = comp("staticcall"), comp("extcall")
+            if (st is None) == (ex is None):
+                real = "both-or-neither-keyword"
+            else:
+                ops = st or ex
+                real = m.value + ("~S" if ("STATICCALL" in ops and st is not None) else "~C") + \
+                    ("~V" if comp("extcall", "value=1") is not None else "~N")
+        n += 1
+        if real != o:
+            ctx.violation("correspondence-broken", "Mutability.v differs from the compiler (from_abi / call opcode / value= rule)",
+                          {"stateMutability": s, "model": o, "real": real})
+    ctx.corr["mutability_cases"] = n
+    return n
+
+
 # ---------------------------------------------------------------- (ii) ABI-only driving
 class Fail(Exception):
     def __init__(self, name, detail):
@@ -537,7 +578,7 @@ def split_top(s):
 
 def run(ctx):
     import collections
-    b = ctx.coq_build(["C19/AbiOut.v", "C19/AbiOutProofs.v", "C19/PropsAbiOut.v"])
+    b = ctx.coq_build(["C19/AbiOut.v", "C19/AbiOutProofs.v", "C19/Mutability.v", "C19/PropsAbiOut.v"])
     rnd = ctx.rng("contracts")
     ncontracts = 16 if ctx.tier == "quick" else 60
     contracts = [G.gen_contract(rnd) for _ in range(ncontracts)]
@@ -545,6 +586,7 @@ def run(ctx):
     n_model, bad = (0, 0)
     if model_ok:
         n_model, bad = part_model_differential(ctx, contracts)
+        n_model += part_mutability(ctx)
     stats = collections.Counter()
     cfgs = core_configs()
     found = False
